@@ -27,15 +27,15 @@ Proof. repeat constructor; unfold byte_ok; cbn; intuition discriminate. Qed.
 (* (2) integer parameters: printf %d/%u/%lld/%llu then _GD_TokToNum, base 10
    and base 0, every value of the widest signed and unsigned types *)
 Theorem int64_roundtrip : forall (base0 wim : bool) (z : Z),
-  - two63 <= z < two63 -> tok_to_num base0 wim (print_Z z) = Num (PInt z) None.
+  - two63 <= z < two63 -> tok_to_num base0 false wim (print_Z z) = Num (PInt z) None.
 Proof. exact int64_roundtrip_lemma. Qed.
 
 Theorem uint64_roundtrip : forall (base0 : bool) (z : Z),
-  0 <= z < two64 -> as_unsigned (tok_to_num base0 false (print_Z z)) = Some z.
+  0 <= z < two64 -> as_unsigned (tok_to_num base0 false false (print_Z z)) = Some z.
 Proof. exact unsigned_param_roundtrip. Qed.
 
 Theorem int64_param_roundtrip : forall (base0 : bool) (z : Z),
-  - two63 <= z < two63 -> as_signed (tok_to_num base0 false (print_Z z)) = Some z.
+  - two63 <= z < two63 -> as_signed (tok_to_num base0 false false (print_Z z)) = Some z.
 Proof. exact signed_param_roundtrip. Qed.
 
 (* (4) digit obligation, decided on the table regenerated from src/flush.c:
@@ -53,6 +53,10 @@ Theorem double_sites_roundtrip_digits_verdict :
                         stableb (s_digits s) witness_double = false
   end.
 Proof. exact double_sites_verdict. Qed.
+
+(* the full statement holds for the current source: every site prints 17 digits *)
+Theorem double_sites_roundtrip_digits : double_sites_roundtrip_digits_statement.
+Proof. exact (sites_have_spec digits_needed flush_double_sites eq_refl). Qed.
 
 (* partial: what every site guarantees on this tree *)
 Theorem double_sites_roundtrip_digits_partial :
@@ -192,3 +196,10 @@ Theorem version_sound_hidden_verdict :
   | Some _ => hidden_refutation hidden_skips_type_rule hidden_flag_min writer_min_version parser_gate
   end.
 Proof. exact (hidden_verdict hidden_skips_type_rule hidden_flag_min writer_min_version parser_gate). Qed.
+
+(* the full statement holds for the current source *)
+Theorem version_sound_hidden : version_sound_hidden_statement.
+Proof.
+  exact (first_bad_hidden_none hidden_skips_type_rule hidden_flag_min writer_min_version parser_gate
+           writer_min_version eq_refl).
+Qed.
